@@ -102,7 +102,9 @@ func (u *Unit) execInstr(fr *Frame, in ssa.Instruction, st *State, reach *Term) 
 		u.note("channels are opaque references (sequential view)")
 	case *ssa.MakeInterface:
 		x := u.value(fr, i.X)
-		fr.vals[i] = Val{T: u.def(u.boxIface(u.termOf(x), i.X.Type())), Typ: i.Type()}
+		bx := x
+		bx.Typ = i.X.Type()
+		fr.vals[i] = Val{T: u.def(u.boxIface(u.termOf(x), i.X.Type())), Typ: i.Type(), Boxed: &bx}
 	case *ssa.MakeClosure:
 		r := u.newRef(st)
 		v := Val{T: r, Typ: i.Type(), Fn: i.Fn.(*ssa.Function)}
@@ -170,7 +172,7 @@ func (u *Unit) execInstr(fr *Frame, in ssa.Instruction, st *State, reach *Term) 
 		for _, r := range i.Results {
 			rs = append(rs, u.value(fr, r))
 		}
-		fr.rets = append(fr.rets, retInfo{*reach, rs, st})
+		fr.rets = append(fr.rets, retInfo{*reach, rs, st, i.Block()})
 		return true
 	case *ssa.If, *ssa.Jump:
 	case *ssa.DebugRef:
@@ -197,7 +199,7 @@ func (u *Unit) execAlloc(fr *Frame, a *ssa.Alloc, st *State) {
 		c := fr.cells[a]
 		if c == nil {
 			u.cellSeq++
-			c = &Cell{Name: a.Comment, Typ: elem, id: u.cellSeq}
+			c = &Cell{Name: a.Comment, Typ: elem, id: u.cellSeq, blk: a.Block()}
 			fr.cells[a] = c
 			fr.byName[a.Comment] = append(fr.byName[a.Comment], c)
 		}
